@@ -35,7 +35,7 @@
    confirmed defect); Weak = {} is the repaired protocol:
      "LinkAfterUnlock"      the builder creates the workspace link after the share
                             API has returned, outside all locks (builder.py
-                            1493-1526, 1727-1741)  [repaired: under the repo lock]
+                            1499-1532, 1736-1750)  [repaired: under the repo lock]
      "LostRaceUnregistered" installSharedPackage returns (path, False) on a lost
                             race without recording the caller in pkg.json "users"
                             (share.py 252-253, 298-300)  [repaired: register like
@@ -105,7 +105,7 @@ NoPkg == [vis |-> FALSE, inst |-> 0, users |-> <<>>, ok |-> TRUE, complete |-> T
 NoRepo == [st |-> "none", seq |-> <<>>, mt |-> FALSE]
 NoLock == [sh |-> {}, ex |-> {}]
 Free(l) == l.sh = {} /\ l.ex = {}
-IdleOp == [kind |-> "idle", b |-> "-", mv |-> FALSE, bad |-> FALSE, pu |-> FALSE, pn |-> FALSE]
+IdleOp == [kind |-> "idle", b |-> "-", mv |-> FALSE, bad |-> FALSE, pu |-> FALSE, pn |-> FALSE, inst |-> 0]
 NoLoc == [sub |-> "", fail |-> "", how |-> "", scan |-> <<>>, cur |-> "-", us |-> <<>>,
           cands |-> {}, size |-> 0, newpkg |-> "-", gpu |-> FALSE, gpn |-> FALSE, after |-> "", dirty |-> FALSE,
           \* history: claims / workspaces when this gc took the repo lock
@@ -212,7 +212,7 @@ Unlink(p) ==
 ----------------------------------------------------------------------------
 (* useSharedPackage, share.py 217-247  (also the registration sub-protocol of the repaired install) *)
 
-\* end of the share API call on the failure path (returns None, None): builder.py 1528-1542
+\* end of the share API call on the failure path (returns None, None): builder.py 1534-1548
 UseApiNone(p) ==
   IF loc[p].sub = "lostreg"
     THEN \* repaired install: the competing package vanished -> try again
@@ -224,7 +224,7 @@ UseApiNone(p) ==
     THEN /\ pc' = [pc EXCEPT ![p] = "b_unshare"] /\ loc' = [loc EXCEPT ![p] = NoLoc] /\ UNCHANGED <<op, claim>>
     ELSE Done(p) /\ UNCHANGED claim
 
-\* where the builder continues once it knows the shared path (builder.py 1493-1526 / 1727-1741)
+\* where the builder continues once it knows the shared path (builder.py 1499-1532 / 1736-1750)
 TailPc(p, b) == IF ws[p] = LINK(b) THEN "b_same" ELSE IF ws[p] = NONE THEN "b_link" ELSE "b_prune"
 
 \* 221 [open.r repo.json]
@@ -314,7 +314,7 @@ U_UnlockRepo(p) ==
        ELSE IF ~W("LinkAfterUnlock")
        THEN Done(p) /\ UNCHANGED claim /\ H("U_UnlockRepo", p, "linked")
        ELSE IF TailPc(p, b) = "b_same"
-       THEN Done(p) /\ UNCHANGED claim /\ H("U_UnlockRepo", p, "same")     \* 1496-1500 already shared
+       THEN Done(p) /\ UNCHANGED claim /\ H("U_UnlockRepo", p, "same")     \* builder.py 1502-1506 already shared
        ELSE /\ claim' = [claim EXCEPT ![p] = <<b, IF op[p].kind = "use" THEN "use" ELSE "lost">>]
             /\ pc' = [pc EXCEPT ![p] = TailPc(p, b)] /\ loc' = [loc EXCEPT ![p] = NoLoc] /\ UNCHANGED op
             /\ H("U_UnlockRepo", p, "ok")
@@ -322,9 +322,9 @@ U_UnlockRepo(p) ==
   /\ UNCHANGED <<sdir, repo, pkg, ninst, pkgLock, ws, budget, dangling, polviol, stale>>
 
 ----------------------------------------------------------------------------
-(* the builder's workspace bookkeeping, builder.py 1501-1526, 1535-1540, 1727-1741 *)
+(* the builder's workspace bookkeeping, builder.py 1507-1532, 1541-1546, 1736-1750 *)
 
-\* 1504 / 1508 / 1731 [unlink <ws> | removePath <ws>]
+\* 1510 / 1514 / 1740 [unlink <ws> | removePath <ws>]
 B_Prune(p) ==
   /\ pc[p] = "b_prune"
   /\ ws' = [ws EXCEPT ![p] = NONE]
@@ -332,7 +332,7 @@ B_Prune(p) ==
   /\ stale' = IF claim[p] = NONE THEN stale \ {p} ELSE stale
   /\ UNCHANGED <<store, locks, claim, op, loc, budget, err, dangling, polviol, stable>>
 
-\* 1516 / 1735 [symlink <ws>]
+\* 1522 / 1744 [symlink <ws>]
 B_Link(p) ==
   /\ pc[p] = "b_link"
   /\ ws' = [ws EXCEPT ![p] = LINK(op[p].b)]
@@ -345,13 +345,16 @@ B_Link(p) ==
        ELSE /\ pc' = [pc EXCEPT ![p] = "idle"] /\ op' = [op EXCEPT ![p] = IdleOp]
             /\ loc' = [nl EXCEPT ![p] = NoLoc]
   \* the share API handed out the path of a package that is not there (any more) and nobody forced its removal
-  /\ dangling' = IF ~pkg[op[p].b].vis /\ p \notin stale THEN dangling \cup {"linked-to-collected"} ELSE dangling
-  /\ stale' = IF pkg[op[p].b].vis THEN stale \ {p} ELSE stale \cup {p}
+  \* (also when somebody else has installed the build-id again in the meantime: the link works, but it is not p's package)
+  /\ LET gone == ~pkg[op[p].b].vis
+                 \/ (op[p].inst # 0 /\ pkg[op[p].b].inst # op[p].inst /\ ~InSeq(p, pkg[op[p].b].users)) IN
+     /\ dangling' = IF gone /\ p \notin stale THEN dangling \cup {"linked-to-collected"} ELSE dangling
+     /\ stale' = IF gone THEN stale \cup {p} ELSE stale \ {p}
   /\ H("B_Link", p, "")
   /\ Mark(op[p].b)
   /\ UNCHANGED <<store, locks, budget, err, polviol>>
 
-\* 1535-1540 [unlink <ws>]: the share does not have the package (any more)
+\* 1541-1546 [unlink <ws>]: the share does not have the package (any more)
 B_Unshare(p) ==
   /\ pc[p] = "b_unshare"
   /\ ws' = [ws EXCEPT ![p] = NONE]
@@ -362,7 +365,7 @@ B_Unshare(p) ==
 ----------------------------------------------------------------------------
 (* installSharedPackage, share.py 249-315 *)
 
-\* the API returns (path, True): builder.py 1727-1741
+\* the API returns (path, True): builder.py 1736-1750
 InstReturn(p) ==
   IF ~op[p].mv THEN Done(p) /\ UNCHANGED <<claim, stable>>
   ELSE IF W("LinkAfterUnlock")
@@ -431,7 +434,8 @@ I_Rename(p) ==
        ELSE /\ pkg' = [pkg EXCEPT ![b] = [vis |-> TRUE, inst |-> ninst + 1, users |-> <<p>>, ok |-> TRUE, complete |-> TRUE, mt |-> FALSE]]
             /\ ninst' = ninst + 1
             /\ order' = Replace(order, p, b)
-            /\ pc' = [pc EXCEPT ![p] = "a_open"] /\ UNCHANGED <<op, loc, claim, stable>>
+            /\ pc' = [pc EXCEPT ![p] = "a_open"] /\ UNCHANGED <<loc, claim, stable>>
+            /\ op' = [op EXCEPT ![p].inst = ninst + 1]
             /\ H("I_Rename", p, "")
   /\ UNCHANGED <<sdir, repo, locks, ws, budget, ghost2>>
 
